@@ -75,6 +75,8 @@ def equations(tier, seed):
         eqs.append(("if", cnd, bin_("+", C, D), bin_("-", C, D)))
         eqs.append(bin_("+", A, ("if", cnd, C, D)))
         eqs.append(bin_("*", ("paren", ("if", cnd, C, D)), A))
+        eqs.append(("if", ("not", cnd), C, D))                  # NOT over each comparison (operands may be equal)
+        eqs.append(("if", ("and", ("not", cnd), ("cmp", "<=", C, D)), A, N2))
     c1, c2, c3 = ("cmp", ">", A, B), ("cmp", "<=", C, D), ("cmp", "=", A, C)
     for cnd in [("and", c1, c2), ("or", c1, c2), ("and", c1, ("and", c2, c3)), ("or", ("and", c1, c2), c3), ("or", c1, ("and", c2, c3)),
                 ("and", ("or", c1, c2), c3), ("not", c1), ("and", ("not", c1), c2), ("or", c2, ("not", c3)),
@@ -440,7 +442,7 @@ def run(tier):
         else:
             res.update(r)
     texts = {tag: (eq, tx) for tag, eq, tx in allitems}
-    samples, bad, refused = [], [], []
+    samples, bad, refused, canon_refused = [], [], [], []
     for tag, (st, info) in sorted(res.items()):
         counts[st] = counts.get(st, 0) + 1
         eq, tx = texts[tag]
@@ -450,6 +452,8 @@ def run(tier):
             rep.inconcl("%s %r: %s" % (tag, tx, info))
         elif st == "refused":
             refused.append(tx)
+            if tag.startswith("e"):
+                canon_refused.append(tx)
         if len(samples) < 12 and (len(samples) < 5 or st == "violated"):
             samples.append({"equation": tx, "verdict": st})
     # variants: a spelling that is refused while the canonical one is accepted is a naming/spelling dependence
@@ -489,6 +493,7 @@ def run(tier):
                "a loud refusal (parse/compile/evaluation exception) is accepted; only a wrong VALUE is a violation")
     rep.coverage.update({"programs": len(allitems) + uns, "disagreements_checked": len(bad), "samples": samples, "verdicts": counts,
                          "equations": len(items), "spelling_variants": len(var_items), "unsupported_forms": uns, "exhaustive": True,
+                         "canonical_spellings_refused": canon_refused[:60],
                          "bounds": "equation ASTs depth <= 3 over 6 binary operators, unary minus, parentheses, IF/AND/OR/NOT, 6 comparisons, 15 built-ins; 10 spelling styles",
                          "outside": "arrays, modules, stochastic/financial built-ins, PREVIOUS, DELAY*/SMTH* (C04), hand-written documents"})
     return rep.finish()
